@@ -378,3 +378,122 @@ func ZoneAtIP(p *Prog, b *ssa.BasicBlock) *Zone {
 	})
 	return z
 }
+
+// ---------------------------------------------------------------- linear forms over zone nodes
+
+// Lin is a linear form sum(T[node]·node) + K over zone nodes.
+type Lin struct {
+	T map[string]int
+	K int64
+}
+
+func LinConst(k int64) Lin { return Lin{T: map[string]int{}, K: k} }
+
+func LinNode(key string) Lin { return Lin{T: map[string]int{key: 1}} }
+
+// LenKey is the zone node of len(v).
+func LenKey(v ssa.Value) string { return "len(" + Path(v) + ")" }
+
+func (a Lin) Add(b Lin, sign int) Lin {
+	out := Lin{T: map[string]int{}, K: a.K + int64(sign)*b.K}
+	for k, n := range a.T {
+		out.T[k] += n
+	}
+	for k, n := range b.T {
+		out.T[k] += sign * n
+	}
+	for k, n := range out.T {
+		if n == 0 {
+			delete(out.T, k)
+		}
+	}
+	return out
+}
+
+// LinOf expresses an integer SSA value as a linear form (sums and differences of nodes and constants).
+func LinOf(v ssa.Value) (Lin, bool) {
+	v = Resolve(v)
+	if bo, ok := v.(*ssa.BinOp); ok && (bo.Op == token.SUB || bo.Op == token.ADD) {
+		x, okx := LinOf(bo.X)
+		y, oky := LinOf(bo.Y)
+		if okx && oky {
+			if bo.Op == token.SUB {
+				return x.Add(y, -1), true
+			}
+			return x.Add(y, 1), true
+		}
+		return Lin{}, false
+	}
+	k, o, ok := zkey(v)
+	if !ok {
+		return Lin{}, false
+	}
+	if k == "0" {
+		return LinConst(o), true
+	}
+	l := LinNode(k)
+	l.K = o
+	return l, true
+}
+
+// ProveLin proves e <= c for a form with at most one positive and one negative unit node.
+func (z *Zone) ProveLin(e Lin, c int64) bool {
+	var pos, neg []string
+	for k, n := range e.T {
+		switch n {
+		case 1:
+			pos = append(pos, k)
+		case -1:
+			neg = append(neg, k)
+		default:
+			return false
+		}
+		z.node(k)
+	}
+	z.close()
+	c -= e.K
+	switch {
+	case len(pos) == 0 && len(neg) == 0:
+		return 0 <= c
+	case len(pos) == 1 && len(neg) == 0:
+		return z.d[z.idx[pos[0]]][0] <= c
+	case len(pos) == 0 && len(neg) == 1:
+		return z.d[0][z.idx[neg[0]]] <= c
+	case len(pos) == 1 && len(neg) == 1:
+		return z.d[z.idx[pos[0]]][z.idx[neg[0]]] <= c
+	}
+	return false
+}
+
+// ProveEq proves a == b.
+func (z *Zone) ProveEq(a, b Lin) bool {
+	return z.ProveLin(a.Add(b, -1), 0) && z.ProveLin(b.Add(a, -1), 0)
+}
+
+// AddLin records e <= c for a form with one positive and/or one negative unit node.
+func (z *Zone) AddLin(e Lin, c int64) bool {
+	x, y := "0", "0"
+	for k, n := range e.T {
+		switch {
+		case n == 1 && x == "0":
+			x = k
+		case n == -1 && y == "0":
+			y = k
+		default:
+			return false
+		}
+	}
+	z.addLE(x, y, c-e.K)
+	return true
+}
+
+// Consistent reports whether the recorded facts have a solution.
+func (z *Zone) Consistent() bool {
+	z.close()
+	for i := range z.d {
+		if z.d[i][i] < 0 {
+			return false
+		}
+	}
+	return true
+}
